@@ -425,7 +425,7 @@ func run(r *eng.Runner) {
 
 	// ---- rooted names: literal == computed ----
 	// what an included template sees
-	r.Group("include-visibility", "c11.case", "an included template (static and lazy name) sees the includer's variables - the innermost binding of with / set / for / macro parameter over the caller's context over the set's globals - plus the with pairs, and only the pairs when only is given: 16 includer shapes x 2 name forms")
+	r.Group("include-visibility", "c11.case", "an included template (static and lazy name) sees the includer's variables - the innermost binding of with / set / for / macro parameter over the caller's context over the set's globals - plus the with pairs, and only the pairs when only is given: 21 includer shapes x 2 name forms")
 	{
 		inc := "[{{ v }}|{{ w }}|{{ x }}]"
 		type vis struct{ main, want string }
@@ -446,6 +446,12 @@ func run(r *eng.Runner) {
 			{`{% with v="outer" %}{% with v="inner" %}{% include NAME %}{% endwith %}{% include NAME %}{% endwith %}`, "[inner|ctxw|globx][outer|ctxw|globx]"},
 			{`{% set v = "set-v" %}{% with v="with-v" %}{% include NAME %}{% endwith %}{% include NAME %}`, "[with-v|ctxw|globx][set-v|ctxw|globx]"},
 			{`{% include NAME with v="pair-v" %}{% include NAME %}`, "[pair-v|ctxw|globx][ctxv|ctxw|globx]"},
+			// only: the includer's own bindings (with, set, for, macro parameter) are hidden as well
+			{`{% with w="with-w" %}{% include NAME with v="pair-v" only %}{% endwith %}`, "[pair-v||ONLYX]"},
+			{`{% set w = "set-w" %}{% include NAME with v="pair-v" only %}`, "[pair-v||ONLYX]"},
+			{`{% for w in "ab" %}{% include NAME with v=w only %}{% endfor %}`, "[a||ONLYX][b||ONLYX]"},
+			{`{% macro m(w) %}{% include NAME with v="pair-v" only %}{% endmacro %}{{ m("arg-w") }}`, "[pair-v||ONLYX]"},
+			{`{% with w="with-w" x="with-x" %}{% include NAME with v=w only %}{% endwith %}`, "[with-w||ONLYX]"},
 		}
 		for i, p := range progs {
 			for _, nameForm := range []string{`"inc"`, `incname`} {
